@@ -355,6 +355,7 @@ fn base_config(subject: SubjectKind, workload: Workload) -> Config {
         inexact_iter: false,
         iter_kind: 0,
         src_hints: false,
+        src_promise: false,
         workload: format!("{:?}", workload),
     }
 }
@@ -398,6 +399,10 @@ pub fn generate(workload: Workload, subject: SubjectKind, seed: u64) -> (Config,
         // zero-sized outputs with a destructor (with or without drop glue on the future)
         cfg.shape = 4 | (r.below(2) as u8);
     }
+    if (class == Class::Collection || (class == Class::Adapter && subject != SubjectKind::FEC)) && r.chance(1, 12) {
+        // zero-sized outputs with a destructor: they carry no identity, the model attributes them
+        cfg.shape = 4 | (r.below(2) as u8);
+    }
     // children that panic in poll: only joins are specified for what happens afterwards (C07)
     if class == Class::Join && matches!(workload, Workload::AfterReady | Workload::Generic) && r.chance(1, 4) {
         m.p_panic = 12;
@@ -428,6 +433,7 @@ pub fn generate(workload: Workload, subject: SubjectKind, seed: u64) -> (Config,
     cfg.inexact_iter = r.chance(1, 3);
     cfg.iter_kind = if r.chance(1, 4) { r.range(2, 4) as u8 } else { 0 };
     cfg.src_hints = r.chance(1, 2);
+    cfg.src_promise = cfg.src_hints && r.chance(1, 3);
     cfg.cap = small_cap(r);
     if cfg.cap == 0 && !matches!(workload, Workload::Cap) {
         cfg.cap = 1 + r.below(4) as usize;
@@ -747,9 +753,18 @@ pub fn generate(workload: Workload, subject: SubjectKind, seed: u64) -> (Config,
                 }
             }
             if class == Class::Adapter && cfg.cap == 0 && subject != SubjectKind::FEC {
-                // only for_each_concurrent documents a meaning for limit 0; the others are only
-                // constructed (C15) and dropped
+                // only for_each_concurrent documents a meaning for limit 0. The others are
+                // constructed (C15), polled a few times and dropped: whatever they do with limit 0,
+                // a sleeping adapter must not keep its task spinning (C14)
                 n_ops = 0;
+                if r.chance(2, 3) {
+                    // upstream has nothing at hand
+                    cfg.up_released = 0;
+                }
+                for _ in 0..r.range(1, 3) {
+                    trace.push(Op::Poll { fresh: r.chance(1, 3) });
+                }
+                trace.push(if r.chance(1, 3) { Op::FreezeFresh } else { Op::Freeze });
             }
         }
         Workload::StaleBacklog => {
